@@ -1,6 +1,7 @@
 import McpModel.Base.Proto
 import McpModel.ClientWrite.Monitor
 import McpModel.ClientWrite.Open
+import McpModel.ClientWrite.Close
 /-!
 Driver for the `write` stream of E6 (C01; go/harness/mcp/zz_verif_clientwrite_test.go): one case = one message sent
 through the real ClientSession over the real StreamableClientTransport.
@@ -11,6 +12,7 @@ through the real ClientSession over the real StreamableClientTransport.
   posts                                        obs n=<POSTs of the message> tok=<0/1 per POST> auth=<Authorize calls>
   end                                          obs result | done | err:<kind> | hang
   probe                                        obs ok | err | skipped
+  closed  (close=w|f: Close called 500 ms / 5 s after the start)   obs at1m=<returned|blocked> final=<..> leak=<none|leak>
   close                                        obs delete=<DELETE requests made by Close>
 
 The opening of the standalone stream (connectStandaloneSSE; model `ClientWrite.openStandalone`, monitor `omonitor`):
@@ -33,6 +35,7 @@ def kv (toks : List String) (k : String) : Option String :=
 
 def parsePayload : String → Option Payload
   | "json" => some .json | "jsonbad" => some .jsonBad | "jsoncut" => some .jsonCut | "jsonhang" => some .jsonHang | "sse" => some .sse
+  | "sseopen" => some .sseOpen | "ssecuth" => some .sseCutH | "ssecutt" => some .sseCutT
   | "other" => some .other | _ => none
 
 def parseAns (s : String) : Option Ans :=
@@ -54,7 +57,7 @@ def parseTS : String → Option TS
   | "fine" => some .fine | "tserr" => some .tsErr | "tokerr" => some .tokErr | "invalidgrant" => some .invalidGrant | _ => none
 
 def showEKind : EKind → String
-  | .tokenSource => "token-source" | .terr => "terr" | .ctx => "ctx" | .auth => "auth" | .rpc => "rpc" | .transient c => s!"st{c}" | .gone => "session-missing"
+  | .tokenSource => "token-source" | .reconnect => "reconnect" | .terr => "terr" | .ctx => "ctx" | .auth => "auth" | .rpc => "rpc" | .transient c => s!"st{c}" | .gone => "session-missing"
   | .status c => s!"st{c}" | .mismatch => "mismatch" | .ctype => "ctype" | .body => "body" | .decode => "decode"
 
 def showEnd : End → String
@@ -95,7 +98,18 @@ def parseOAns (s : String) : Option OAns :=
   let d := if e then String.ofList ((dropS s 2).toList.dropLast) else dropS s 2
   d.toNat?.map (fun c => .st c e)
 
+def CClause.text : CClause → String
+  | .returns => "C01: Close did not return although the message that was on its way had ended"
+  | .ctx => "C01: the caller's context had ended but Close (or the caller) stayed blocked"
+  | .late => "C01: a call started after Close did not fail at once with the closed-connection error"
+  | .leak => "C01+C09: goroutines of the client remain blocked for ever after Close (the bubble cannot exit)"
+
+def showB (b : Bool) : String := if b then "returned" else "blocked"
+
 structure DState where
+  cat1m : Bool := false
+  cfinal : Bool := false
+  cleak : Bool := false
   oscn : Option OScn := none
   gets : Nat := 0
   scn : Option Scn := none
@@ -115,10 +129,11 @@ def engine : Engine DState where
         let ts ← match kv rest "ts" with | none => some TS.fine | some t => parseTS t
         -- bg=posthang: another call of the session is in flight meanwhile; the calls of a session share nothing in the model
         match kv rest "bg" with | none => pure () | some "posthang" => pure () | some _ => none
+        let close ← match kv rest "close" with | none => some false | some "w" => some true | some "f" => some true | some _ => none
         let cancel ← match kv rest "cancel" with | some "0" => some false | some "1" => some true | _ => none
         let a1 ← (kv rest "a1").bind parseAns
         let a2 ← (kv rest "a2").bind parseAns
-        let s : Scn := { kind := kind, auth := auth, ts := ts, cancel := cancel, a1 := a1, a2 := a2 }
+        let s : Scn := { kind := kind, auth := auth, ts := ts, cancel := cancel, close := close, a1 := a1, a2 := a2 }
         if decide (ScnOK s) then some s else none
       match r with
       | some s => ({ scn := some s }, { model := "ok" })
@@ -149,6 +164,17 @@ def engine : Engine DState where
       match d.scn with
       | none => (d, { model := "bad-op" })
       | some s => ({ d with end_ := parseEndObs impl }, { model := showEnd (run s).end_ })
+    | ["closed"] =>
+      -- a Close scenario: obs at1m=<returned|blocked> final=<returned|blocked> leak=<none|leak>
+      match d.scn with
+      | none => (d, { model := "bad-op" })
+      | some s =>
+        let w := words impl
+        let m := cobsOf s
+        ({ d with cat1m := kv w "at1m" == some "returned", cfinal := kv w "final" == some "returned", cleak := kv w "leak" != some "none" },
+         { model := s!"at1m={showB m.at1m} final={showB m.final} leak=none",
+           -- the leak clause is judged at once (a bubble that cannot exit gives no later records)
+           violated := if kv w "leak" != some "none" then some (CClause.text .leak) else none })
     | ["close"] =>
       match d.scn with
       | none => (d, { model := "bad-op" })
@@ -160,6 +186,15 @@ def engine : Engine DState where
           (d, { model := showProbe (oobsOf (openStandalone os)).probe,
                 violated := (omonitor os { gets := d.gets, probe := p }).map OClause.text })
         | none => (d, { model := "bad-op" })
+      else
+      if (d.scn.map (·.close)) == some true then
+        match d.scn, d.end_ with
+        | some s, some e =>
+          let p : CProbe := if impl = "closed" then .closed else if impl = "ok" then .ok else if impl = "skipped" then .skipped else .err
+          let m := cobsOf s
+          (d, { model := (match m.probe with | .closed => "closed" | .ok => "ok" | .err => "err" | .skipped => "skipped"),
+                violated := (cmonitor s { at1m := d.cat1m, final := d.cfinal, leak := d.cleak, end_ := e, probe := p }).map CClause.text })
+        | _, _ => (d, { model := "bad-op" })
       else
       match d.scn, d.end_, parseProbe impl with
       | some s, some e, some p =>
